@@ -305,6 +305,20 @@ def finish(prop, tier, t0, cov, violations, known, broken):
         broken += cbroken
         for x, sc, path in cviol:
             violations.append(({"op": "concurrent", "pre": "", "field": x["pred"], "want": "", "got": x["detail"], "cfg": sc.get("size")}, path))
+    if prop in ("C04", "C05", "C07") and not broken:
+        # the eviction policy object itself: every call on the real policy replayed on Policy.tla (pointer-level model of
+        # policy.go / linked.go, incl. the hill climber and tasks applied out of order), judged by PolicyTrace.tla
+        import polcheck
+        pcov, pviol, pbroken = polcheck.run(prop, tier, None, collect_only=True)
+        cov["policy_events"] = pcov["events"]
+        cov["policy_drift"] = pcov["drift"]
+        cov["traces_validated_against_impl"] += pcov["traces_validated_against_impl"]
+        cov["states"] += pcov["states"]
+        cov["transitions"] += pcov["transitions"]
+        cov["mc_configs"] += pcov["mc"]
+        broken += pbroken
+        for pred, detail, path in pviol:
+            violations.append(({"op": "policy", "pre": "", "field": pred, "want": "", "got": str(detail)[:300], "cfg": None}, path))
     if prop == "C08" and not broken:
         # concurrent half of C08 (the larger one): gate-scheduled loads racing writes, judged by LoadHist.tla
         import loadcheck
